@@ -173,7 +173,7 @@ func (w *World) Step(o HistOpts) string {
 		}
 		if kind == "many" {
 			foreign := -1
-			if w.predict && r.P(0.08) {
+			if w.predict && len(batch) > 0 && r.P(0.08) {
 				foreign = r.Intn(len(batch) + 1)
 			}
 			n, err, _ := w.Many(batch, foreign, "InsertOrUpdateMany")
